@@ -238,7 +238,7 @@ Proof.
 Qed.
 
 (* ================================================================ instructions that do not write a sidecar *)
-Definition nosw (i : instr) : bool := match i with ISideWrite _ _ | ISideFlush _ => false | _ => true end.
+Definition nosw (i : instr) : bool := match i with ISideWrite _ _ | ISideFlush _ | ISideRename _ _ => false | _ => true end.
 
 Lemma SOK_grow s s' : (exists x, truth s' = truth s ++ x) ->
   (forall c ch, In (c, ch) (sides s') -> In (c, ch) (sides s) \/ ch = []) -> SOK s -> SOK s'.
@@ -414,12 +414,13 @@ Proof.
       exact E.
 Qed.
 
-Lemma S2_rebuild s c : SOK s -> S2 s (rebuild c (stream (2 * c) (frames_of (truth s)))).
+(* the rebuild before the S3-live repair (in place): every prefix of the rewrite is a prefix of the stream *)
+Lemma S2_rebuild_in_place s c : SOK s -> S2 s (rebuild_in_place c (stream (2 * c) (frames_of (truth s)))).
 Proof.
   intros H. set (S := stream (2 * c) (frames_of (truth s))).
   assert (HP : forall x, RIp s c (enc S) x -> SOK x).
   { intros x (W & r & HR & E). apply (RI_SOK s c x W S); [reflexivity | exact H | exact HR | exists r; exact E]. }
-  unfold rebuild.
+  unfold rebuild_in_place.
   set (s1 := exec s (ISideCreate c)).
   assert (R1 : RI s c s1 (enc [])) by apply RI_create.
   destruct (rebuild_loop s c S [] s1 R1) as [A E]. cbn [app] in A, E.
@@ -436,6 +437,40 @@ Proof.
   apply AllPre_cons; [exact H|]. fold s1. apply AllPre_cons; [exact K1|]. cbn [exec].
   apply AllPre_app; [apply (AllPre_mono (RIp s c (enc S))); [exact HP | exact A]|]. fold s2.
   apply AllPre_cons; [exact K2|]. apply AllPre_cons; [exact K3|]. cbn [exec]. apply AllPre_nil. exact K3.
+Qed.
+(* the repaired rebuild: the sidecar is untouched until the rename puts the whole rewritten file in its place *)
+Definition tmp_only (i : instr) : bool :=
+  match i with ITmpCreate _ | ITmpWrite _ _ | ITmpFlush _ | IPt _ => true | _ => false end.
+Lemma tmp_only_run is : forall s, forallb tmp_only is = true -> run_instrs s is = s.
+Proof.
+  unfold run_instrs. induction is as [|i is IH]; intros s H; [reflexivity|].
+  cbn [forallb] in H. apply andb_true_iff in H. destruct H as [Hi H]. cbn [fold_left].
+  destruct i; try discriminate Hi; cbn [exec]; apply IH; exact H.
+Qed.
+Lemma tmp_only_nosw is : forallb tmp_only is = true -> forallb nosw is = true.
+Proof.
+  induction is as [|i is IH]; [reflexivity|]. cbn [forallb]. intros H. apply andb_true_iff in H.
+  destruct H as [Hi H]. rewrite (IH H), andb_true_r. destruct i; try discriminate Hi; reflexivity.
+Qed.
+Lemma tmp_lines_only c evs :
+  forallb tmp_only (flat_map (fun f => [ITmpWrite c [Body f]; IPt 62; ITmpWrite c [NL]; IPt 63]) evs) = true.
+Proof. induction evs as [|f evs IH]; [reflexivity|]. cbn [flat_map app forallb tmp_only andb]. exact IH. Qed.
+
+Lemma S2_rebuild s c : SOK s -> S2 s (rebuild c (stream (2 * c) (frames_of (truth s)))).
+Proof.
+  intros H. set (S := stream (2 * c) (frames_of (truth s))).
+  unfold rebuild. fold (enc S).
+  set (L := flat_map (fun f => [ITmpWrite c [Body f]; IPt 62; ITmpWrite c [NL]; IPt 63]) S).
+  set (P0 := [ITmpCreate c; IPt 61] ++ L ++ [ITmpFlush c; IPt 64]).
+  assert (T : forallb tmp_only P0 = true).
+  { unfold P0, L. rewrite !forallb_app, tmp_lines_only. reflexivity. }
+  assert (E : [ITmpCreate c; IPt 61] ++ L ++ [ITmpFlush c; IPt 64; ISideRename c (enc S)] = P0 ++ [ISideRename c (enc S)]).
+  { unfold P0. rewrite <- !app_assoc. reflexivity. }
+  rewrite E. apply S2_app; [apply S2_nosw; [apply tmp_only_nosw; exact T | exact H]|].
+  rewrite (tmp_only_run P0 s T).
+  assert (K : SOK (exec s (ISideRename c (enc S)))).
+  { apply (SOK_put s _ c (enc S)); [reflexivity | reflexivity | exact H | left; exists []; apply app_nil_r]. }
+  split; [apply AllPre_cons; [exact H | apply AllPre_nil; exact K] | exact K].
 Qed.
 Lemma S2_rebuild_nonempty s c : SOK s -> S2 s (rebuild_nonempty c (stream (2 * c) (frames_of (truth s)))).
 Proof.
